@@ -593,3 +593,72 @@ def cache_budget(has_cfg: bool, cfg_mb: int, has_arg: bool, arg_mb: int, s: int)
     else:
         cover("does-not-fit")
         check("result-over-budget-is-not-cached", not resident, None)
+
+
+REPO_DEFS = [("r0", ["c1"]), ("r1", ["c1", "c2"]), ("r2", ["c2"])]
+
+
+@obligation(
+    "C18.repo_history",
+    covers=("defined-after-a-miss", "shadowed-after-a-hit", "queried-between-changes"),
+    split={"o0": list(range(6))},
+    bounds="an initially empty environment changed by every sequence of 3 operations out of {append_repo, prepend_repo} x 3 repositories "
+           "(defining c1 / c1+c2 / c2), with get_cluster(c1 / c2 / unknown / None) queried after every operation or only at the end: the "
+           "answer is always the first defining repository in the current priority order, else None",
+    variables="choice: o0 (partitioned), o1, o2, quiet bit",
+    budget_s={"quick": 120, "thorough": 300},
+    choice_vars=4,
+)
+def repo_history(o0: int, o1: int, o2: int, quiet: bool):
+    o1 = pick(o1, 6)
+    o2 = pick(o2, 6)
+    q = True if quiet else False
+    with concrete_region():
+        sb = Sandbox()
+        try:
+            root = sb.root
+            env = Environment(name="e", base_dir=root)
+            order = []  # model: repository objects in priority order
+
+            def query(tag):
+                for nm in ("c1", "c2"):
+                    first = next((r for r in order if nm in r.clusters), None)
+                    got = env.get_cluster(nm)
+                    check(tag + "cluster-resolves-to-first-defining-repository-or-nothing",
+                          got is (first.clusters[nm] if first is not None else None), (nm, [r.name for r in order], repr(got)))
+                check(tag + "unknown-name-resolves-to-nothing", env.get_cluster("zz") is None, None)
+                check(tag + "no-name-is-the-default-cluster", env.get_cluster(None) is env.default_cluster, None)
+
+            query("empty:")
+            prev = {nm: None for nm in ("c1", "c2")}
+            for step, o in enumerate((o0, o1, o2)):
+                name, cls = REPO_DEFS[o % 3]
+                repo = ConfigurationRepository({"name": "%s-%d" % (name, step), "clusters": {
+                    c: {"name": c, "storage": {"type": "filesystem", "path": "%s/%s-%d-%s" % (root, name, step, c)}} for c in cls}})
+                before = {nm: next((r for r in order if nm in r.clusters), None) for nm in ("c1", "c2")}
+                if o < 3:
+                    env.append_repo(repo)
+                    order.append(repo)
+                else:
+                    env.prepend_repo(repo)
+                    order.insert(0, repo)
+                after = {nm: next((r for r in order if nm in r.clusters), None) for nm in ("c1", "c2")}
+                for nm in ("c1", "c2"):
+                    if before[nm] is None and after[nm] is not None:
+                        cover("defined-after-a-miss")
+                    if before[nm] is not None and after[nm] is not before[nm]:
+                        cover("shadowed-after-a-hit")
+                if not q or step == 2:
+                    if step < 2:
+                        cover("queried-between-changes")
+                    query("step%d:" % step)
+            # and a function bound to the name lands in that repository's store
+            for nm in ("c1", "c2"):
+                first = next((r for r in order if nm in r.clusters), None)
+                if first is not None:
+                    fp = fingerprint(env, nm, root, nm)
+                    tops = sorted({p.split("/")[0] for p in fp["files"]})
+                    want = [first.clusters[nm].storage.config_path.split("/")[-1]]
+                    check("function-stores-in-first-defining-repository", tops == want, (tops, want))
+        finally:
+            sb.close()
